@@ -136,11 +136,43 @@ pub fn gen_dag_sharing(rng: &mut Rng, family: Family, fuel: usize, dup: u64, uns
     Some((dag, typing))
 }
 
+/// A long chain of products / sums / injections around a small core: every node's type ascription is long, so the
+/// rendered text carries hundreds of `*`, `+` and `?` operators (state kept across lines by the parser shows here).
+fn chain_program(rng: &mut Rng) -> Dag {
+    let mut d = Dag::default();
+    let n = rng.urange(20, 90);
+    let mut cur = d.push(if rng.bool() { Op::Unit } else { Op::Witness(None) });
+    for _ in 0..n {
+        cur = match rng.below(5) {
+            0 | 1 => {
+                let u = d.push(Op::Unit);
+                d.push(Op::Pair(cur, u))
+            }
+            2 => {
+                let u = d.push(Op::Unit);
+                d.push(Op::Pair(u, cur))
+            }
+            3 => d.push(Op::InjL(cur)),
+            _ => d.push(Op::InjR(cur)),
+        };
+    }
+    let u = d.push(Op::Unit);
+    d.push(Op::Comp(cur, u));
+    d
+}
+
 fn program_case(rng: &mut Rng, case: &mut Case) -> Outcome {
     let family = family_of(rng);
     let fuel = rng.urange(1, 30);
     let dup = *rng.pick(&[0u64, 10, 30]);
-    let (dag, _) = match gen_dag(rng, family, fuel, dup) {
+    let generated = if rng.chance(1, 25) {
+        case.count("program.long-type-chain");
+        let d = chain_program(rng);
+        ast::infer(&d, true, None).ok().map(|t| (d, t))
+    } else {
+        gen_dag(rng, family, fuel, dup)
+    };
+    let (dag, _) = match generated {
         Some(x) => x,
         None => return Outcome::Inconclusive("generator".into()),
     };
